@@ -44,7 +44,7 @@ class Path:
 
 
 class State:
-    __slots__ = ("store", "variants", "events", "facts", "ids", "epoch", "member", "visits", "steps", "lenver", "moved")
+    __slots__ = ("store", "variants", "events", "facts", "ids", "epoch", "member", "visits", "steps", "lenver", "moved", "slack", "lencount", "subs")
 
     def __init__(self):
         self.store = {}
@@ -58,6 +58,9 @@ class State:
         self.steps = None
         self.lenver = {}
         self.moved = {}
+        self.slack = {}
+        self.lencount = {}
+        self.subs = {}
 
     def fork(self):
         s = State.__new__(State)
@@ -72,6 +75,9 @@ class State:
         s.steps = self.steps
         s.lenver = dict(self.lenver)
         s.moved = dict(self.moved)
+        s.slack = dict(self.slack)
+        s.lencount = dict(self.lencount)
+        s.subs = dict(self.subs)
         return s
 
     def fresh(self):
@@ -175,7 +181,7 @@ def fmt_val(v, depth=0):
     if k == "ref":
         return "&" + fmt_loc(v[1])
     if k == "agg":
-        name = v[2] if isinstance(v[2], str) else "::".join(x for x in v[2] if x)
+        name = v[2] if isinstance(v[2], str) else "::".join(x for x in (v[2] or ()) if x)
         return "%s(%s)" % (name or "", ", ".join(fmt_val(x, depth + 1) for x in v[3]))
     if k == "call":
         return "%s#%d" % (v[2].split("::")[-1], v[1])
@@ -225,12 +231,16 @@ def root_of(v):
 
 
 def subterms(v):
-    yield v
-    if isinstance(v, tuple):
-        for x in v[1:]:
-            if isinstance(x, tuple):
-                for y in subterms(x):
-                    yield y
+    """v and every tuple nested in it (value tuples start with a str tag; plain tuples are containers)"""
+    if not isinstance(v, tuple):
+        return
+    tagged = bool(v) and isinstance(v[0], str)
+    if tagged:
+        yield v
+    for x in (v[1:] if tagged else v):
+        if isinstance(x, tuple):
+            for y in subterms(x):
+                yield y
 
 
 class Interp:
@@ -326,9 +336,22 @@ class Interp:
                 st.store[pre] = self.agg_update(pv, proj[cut:], val)
                 break
         else:
-            # drop stale sub-entries
-            for k in [k for k in st.store if k != loc and k[:len(loc) - 1] == loc[:-1] and loc_proj(k)[:len(proj)] == proj]:
-                del st.store[k]
+            # drop stale sub-entries (entries stored under a longer projection of the same base)
+            base = loc_base(loc)
+            subs = st.subs.get(base)
+            if subs:
+                n = len(proj)
+                keep = []
+                for k in subs:
+                    if k != loc and loc_proj(k)[:n] == proj:
+                        st.store.pop(k, None)
+                    else:
+                        keep.append(k)
+                st.subs[base] = tuple(keep)
+            if proj:
+                cur = st.subs.get(base, ())
+                if loc not in cur:
+                    st.subs[base] = cur + (loc,)
             st.store[loc] = val
         if loc[0] == "H":
             st.lenver[("w", loc)] = st.lenver.get(("w", loc), 0) + 1
@@ -625,6 +648,9 @@ class Interp:
                 outcome = v if v is not None else ("not", tuple(vals))
                 s2.facts.append(("cond", c, outcome))
                 self.event(s2, fr, {"ev": "branch", "cond": c, "outcome": outcome, "ty": t.get("ty"), "ln": t.get("ln"), "bb": bb})
+                tr = self.models._truth(outcome)
+                if tr is not None:
+                    self.models.note_sum_fact(self, s2, c, tr)
             outs.append((s2, tb))
         return outs
 
@@ -844,8 +870,83 @@ class Models:
             return None
         return None
 
+    # names of the RawLRU fields of composite caches whose capacity equals the cache's resident bound `size`
+    # (filled in by rules/lib/composite.py from the constructors; empty = no room reasoning)
+    resident_bound_fields = frozenset()
+
     def decide_cond(self, interp, st, c):
+        """decide an opaque boolean condition from facts already on the path (sound pruning only)"""
+        if not (isinstance(c, tuple) and c[0] == "bin"):
+            return None
+        op, a, b = c[1], c[2], c[3]
+        if op in ("Eq", "Ne"):
+            for x, y in ((a, b), (b, a)):
+                ky = const_int(y)
+                if ky is None:
+                    continue
+                for f in st.facts:
+                    if f[0] != "cond" or not (isinstance(f[1], tuple) and f[1][0] == "bin" and f[1][1] in ("Eq", "Ne")):
+                        continue
+                    fa, fb = f[1][2], f[1][3]
+                    other = fb if fa == x else fa if fb == x else None
+                    if other is None or const_int(other) is None:
+                        continue
+                    truth = self._truth(f[2])
+                    if truth is None:
+                        continue
+                    is_eq = (f[1][1] == "Eq") == truth      # fact says x == other (True) or x != other (False)
+                    if is_eq and const_int(other) != ky:
+                        return 0 if op == "Eq" else 1
+                    if is_eq and const_int(other) == ky:
+                        return 1 if op == "Eq" else 0
+                    if not is_eq and const_int(other) == ky:
+                        return 0 if op == "Eq" else 1
+        # room: len(X) vs cap(X) for a resident-bound list with slack >= 1
+        for x, y, o in ((a, b, op), (b, a, {"Lt": "Gt", "Gt": "Lt", "Le": "Ge", "Ge": "Le"}.get(op, op))):
+            if isinstance(x, tuple) and x[0] == "len" and isinstance(y, tuple) and y[0] == "load":
+                Xm = x[1]
+                capl = y[1]
+                if Xm[0] == "H" and capl[0] == "H" and Xm[2] and Xm[2][-1] == "map" and capl[2] and capl[2][-1] == "cap" \
+                        and Xm[1] == capl[1] and Xm[2][:-1] == capl[2][:-1] and len(Xm[2]) >= 2:
+                    fld = Xm[2][-2]
+                    root = (Xm[1], Xm[2][:-2])
+                    if fld in self.resident_bound_fields and st.slack.get(root, 0) >= 1 and x[2] == st.lenver.get(Xm, 0):
+                        return {"Ge": 0, "Eq": 0, "Gt": 0, "Lt": 1, "Ne": 1, "Le": 1}.get(o)
         return None
+
+    @staticmethod
+    def _truth(outcome):
+        if isinstance(outcome, tuple) and outcome and outcome[0] == "not":
+            vals = [str(x) for x in outcome[1]]
+            return True if "0" in vals else None
+        if outcome is None:
+            return None
+        return str(outcome) not in ("0", "false")
+
+    def note_sum_fact(self, interp, st, c, truth):
+        """`len(A)+len(B) < size` (all resident lists, current versions) gives slack 1"""
+        if not (isinstance(c, tuple) and c[0] == "bin" and c[1] in ("Lt", "Ge")):
+            return
+        if (c[1] == "Lt") != truth:
+            return
+        s, bound = c[2], c[3]
+        if not (isinstance(s, tuple) and s[0] == "bin" and s[1] == "Add"):
+            return
+        lens = [s[2], s[3]]
+        roots = set()
+        for l in lens:
+            if not (isinstance(l, tuple) and l[0] == "len" and l[1][0] == "H" and len(l[1][2]) >= 2 and l[1][2][-1] == "map"):
+                return
+            if l[1][2][-2] not in self.resident_bound_fields or l[2] != st.lenver.get(l[1], 0):
+                return
+            roots.add((l[1][1], l[1][2][:-2]))
+        if len(roots) != 1 or lens[0][1] == lens[1][1]:
+            return
+        root = roots.pop()
+        if not (isinstance(bound, tuple) and bound[0] == "load" and bound[1][0] == "H" and bound[1][1] == root[0]
+                and bound[1][2] == root[1] + ("size",)):
+            return
+        st.slack[root] = max(st.slack.get(root, 0), 1)
 
     def opaque_effects(self, interp, st, fr, info, ev):
         pass
@@ -1208,7 +1309,51 @@ class Models:
                 return loc[1]
         return None
 
+    def _is_node_map(self, info):
+        return "NonNull<lru::raw::EntryNode" in info["f"].get("self_ty", "")
+
+    def _slack(self, st, X, d):
+        if X[0] == "H" and len(X[2]) >= 2 and X[2][-1] == "map" and X[2][-2] in self.resident_bound_fields:
+            root = (X[1], X[2][:-2])
+            st.slack[root] = st.slack.get(root, 0) + d
+
+    def _generic_lookup(self, interp, st, fr, info, kind):
+        """HashMap<u64, i64> and friends: no node semantics, just presence forks and value locations"""
+        X = self._hm_recv(interp, st, info)
+        ks = info["args"][1]
+        if isinstance(ks, tuple) and ks[0] == "ref":
+            ks = interp.read(st, ks[1])
+        cid = st.fresh()
+        known = st.member.get((X, ks))
+        outs = []
+        for present in (True, False):
+            if known is not None and known != present:
+                continue
+            s2 = st if (known is not None) else st.fork()
+            if known is None:
+                s2.facts.append(("member", X, ks, present))
+            vloc = ("H", ("mapslot", X, ks), ())
+            ev = {"ev": "call", "q": info["q"], "hm": kind, "generic": True, "recv": X, "keysrc": ks, "present": present, "id": cid,
+                  "args": info["args"], "ln": info["ln"], "bb": info["bb"], "unwind": info["unwind"], "f": info["f"], "slot": vloc}
+            interp.event(s2, fr, ev)
+            if kind == "remove":
+                s2.member[(X, ks)] = False
+                if present:
+                    s2.lenver[X] = s2.lenver.get(X, 0) + 1
+                    outs.append((s2, some(interp.read(s2, vloc))))
+                else:
+                    outs.append((s2, NONE))
+            elif kind in ("get", "get_mut"):
+                s2.member[(X, ks)] = present
+                outs.append((s2, some(("ref", vloc)) if present else NONE))
+            else:
+                s2.member[(X, ks)] = present
+                outs.append((s2, ("const", "bool", "1" if present else "0")))
+        return outs
+
     def _lookup(self, interp, st, fr, info, kind):
+        if not self._is_node_map(info):
+            return self._generic_lookup(interp, st, fr, info, kind)
         X = self._hm_recv(interp, st, info)
         ks = self._keysrc(interp, st, info["args"][1])
         own = self._node_of_key(ks)
@@ -1233,6 +1378,8 @@ class Models:
                     s2.member.pop(("node", X, ks), None)
                     # a removal from X invalidates what we knew about other keys being present? no: other keys stay.
                     s2.lenver[X] = s2.lenver.get(X, 0) + 1
+                    s2.lencount[X] = s2.lencount.get(X, 0) - 1
+                    self._slack(s2, X, +1)
                     outs.append((s2, some(node)))
                 else:
                     s2.member[(X, ks)] = False
@@ -1265,6 +1412,25 @@ class Models:
 
     def hm_insert(self, interp, st, fr, info):
         X = self._hm_recv(interp, st, info)
+        if not self._is_node_map(info):
+            k = info["args"][1]
+            cid = st.fresh()
+            vloc = ("H", ("mapslot", X, k), ())
+            known = st.member.get((X, k))
+            outs = []
+            for present in (True, False):
+                if known is not None and known != present:
+                    continue
+                s2 = st if known is not None else st.fork()
+                old = interp.read(s2, vloc)
+                interp.event(s2, fr, {"ev": "call", "q": info["q"], "hm": "insert", "generic": True, "recv": X, "keysrc": k, "value": info["args"][2],
+                                      "present": present, "id": cid, "args": info["args"], "ln": info["ln"], "bb": info["bb"], "unwind": info["unwind"],
+                                      "f": info["f"], "slot": vloc, "old": old})
+                interp.write(s2, vloc, info["args"][2])
+                s2.member[(X, k)] = True
+                s2.lenver[X] = s2.lenver.get(X, 0) + 1
+                outs.append((s2, some(old) if present else NONE))
+            return outs
         k = info["args"][1]
         ks = k[3][0] if isinstance(k, tuple) and k[0] == "agg" and k[1] == "adt" and k[2][0].endswith("KeyRef") else k
         cid = st.fresh()
@@ -1272,12 +1438,33 @@ class Models:
                               "args": info["args"], "ln": info["ln"], "bb": info["bb"], "unwind": info["unwind"], "user": True, "f": info["f"]})
         st.member[(X, ks)] = True
         st.lenver[X] = st.lenver.get(X, 0) + 1
+        st.lencount[X] = st.lencount.get(X, 0) + 1
+        self._slack(st, X, -1)
         return [(st, ("call", cid, info["q"]))]
+
+    def _fresh_map(self, interp, st, X):
+        v = interp.read(st, X)
+        return isinstance(v, tuple) and v[0] == "call" and "HashMap" in v[2] and v[2].split("::")[-1] in (
+            "with_capacity_and_hasher", "with_hasher", "new", "with_capacity", "default")
 
     def hm_len(self, interp, st, fr, info):
         X = self._hm_recv(interp, st, info)
+        if self._fresh_map(interp, st, X):
+            return [(st, ("const", "usize", str(max(0, st.lencount.get(X, 0)))))]
         return [(st, ("len", X, st.lenver.get(X, 0)))]
 
     def hm_is_empty(self, interp, st, fr, info):
         X = self._hm_recv(interp, st, info)
+        if self._fresh_map(interp, st, X):
+            return [(st, ("const", "bool", "1" if st.lencount.get(X, 0) <= 0 else "0"))]
         return [(st, ("bin", "Eq", ("len", X, st.lenver.get(X, 0)), ("const", "usize", "0")))]
+
+    def hm_clear(self, interp, st, fr, info):
+        X = self._hm_recv(interp, st, info)
+        cid = st.fresh()
+        interp.event(st, fr, {"ev": "call", "q": info["q"], "hm": "clear", "generic": not self._is_node_map(info), "recv": X, "id": cid,
+                              "args": info["args"], "ln": info["ln"], "bb": info["bb"], "unwind": info["unwind"], "f": info["f"], "keysrc": None})
+        st.lenver[X] = st.lenver.get(X, 0) + 1
+        for k in [k for k in st.member if k[0] == X]:
+            del st.member[k]
+        return [(st, ("unit",))]
